@@ -113,3 +113,11 @@ func FilterText(cmd *Cmd) string {
 
 // Tier is "quick" or "thorough": the thorough tier explores larger bounds.
 var Tier = "quick"
+
+// UpdText is the update expression text a command sends.
+func UpdText(cmd *Cmd) string {
+	if cmd.Upd == nil {
+		return ""
+	}
+	return cmd.Upd.Render(NewBinder())
+}
